@@ -1,4 +1,320 @@
-import SdbModel.Model.Table
-/-! # C01 — theorems under construction (see DESIGN.md section 4) -/
+import SdbModel.Lemmas.Cow
+import SdbModel.Generated.ArtParams
+
+/-!
+# C01 — Read transactions are frozen snapshots (MVCC isolation)
+
+> A read transaction is a frozen snapshot: every query on it (through any
+> index, counts, table revision, iteration; repeated any number of times, at
+> any later moment) returns exactly what it would have returned when the
+> snapshot was taken. Nothing done afterwards - writes in pending, committed
+> or aborted write transactions, graveyard collection, other readers - can
+> change that, and readers need no synchronisation with writers.
+
+The executable models (`Model.Art`, `Model.Lpm`, `Model.Table`) are built from
+immutable values, so there a snapshot cannot change by construction; what the
+Go code has to get right is the ALIASING: `part` and `lpm` mutate nodes in
+place when `node.txnID == txn.txnID`.  The theorems here are therefore about the
+heap model of `Lemmas.Cow` (addresses, cells with an ownership stamp, any
+number of interleaved and branching transactions, published views), parametric
+in the `StampFacts` that tools/extract reads off part/txn.go, part/tree.go and
+lpm/trie.go.  Proved: when the extracted facts are `ok` (they are:
+`C01_part_stamp_discipline`, `C01_lpm_stamp_discipline`) no step of any run
+ever writes a cell reachable from a view handed out earlier, so the value the
+view denotes, every sub-iterator and every pointer-chasing query on it are the
+same in every later heap (`C01_snapshot_frozen` …); and `ok` is also necessary
+(`C01_discipline_necessary`): with any one fact missing there is a run of four
+or five operations after which a published view denotes something else.
+Transactions started from the same tree carry the same id; that is safe
+(`C01_sibling_transactions_isolated`, invariant `Inv.tOwnT`).  Not in the heap
+model: the counts and the table revision of a snapshot (plain values copied
+into `Tree`/`tableEntry`, immutable in `Model.Table` by construction), and the
+Go memory model (the steps here are atomic; what is proved is that no step
+writes a cell a reader can reach, which is what makes unsynchronised reads safe).
+-/
 namespace Sdb
+open Cow
+
+/-! ## the extracted facts are the ones assumed -/
+
+/-- the stamp discipline tools/extract finds in part/txn.go and part/tree.go is complete -/
+theorem C01_part_stamp_discipline : Gen.partStamp.ok = true := by decide
+
+/-- … and so is the one it finds in lpm/trie.go -/
+theorem C01_lpm_stamp_discipline : Gen.lpmStamp.ok = true := by decide
+
+/-! ## the invariant -/
+
+/-- the invariant holds before anything has happened … -/
+theorem C01_invariant_initial : Inv init := Inv.init
+
+/-- … is preserved by every step of every transaction (begin from any view, write,
+    Commit/Clone/iterator creation, abandon) … -/
+theorem C01_invariant_preserved (f : StampFacts) (hf : f.ok = true) (s s' : St) (I : Inv s)
+    (h : Step f s s') : Inv s' := I.step hf h
+
+/-- … and so holds in every reachable state -/
+theorem C01_invariant_reachable (f : StampFacts) (hf : f.ok = true) (s : St) (h : Reachable f s) : Inv s :=
+  h.inv hf
+
+/-! ## published views are frozen -/
+
+/-- No cell reachable from a published view is ever written again (so a reader following
+    pointers from the view never races with a writer), whatever the transactions do
+    afterwards and however many of them there are. -/
+theorem C01_published_cells_untouched (f : StampFacts) (hf : f.ok = true) (s s' : St)
+    (hs : Reachable f s) (hrun : Steps f s s') (v : View) (hv : v ∈ s.views) :
+    ∀ a, Reach s.heap v.root a → s'.heap a = s.heap a :=
+  (Steps.inv_frozen hf (hs.inv hf) hrun).2 v hv
+
+/-- The value denoted by a published view is the same in every later heap, to every depth. -/
+theorem C01_snapshot_frozen (f : StampFacts) (hf : f.ok = true) (s s' : St)
+    (hs : Reachable f s) (hrun : Steps f s s') (v : View) (hv : v ∈ s.views) (n : Nat) :
+    content s'.heap n v.root = content s.heap n v.root :=
+  content_frame n (C01_published_cells_untouched f hf s s' hs hrun v hv)
+
+/-- The same for every node below the root: an iterator that starts inside the tree
+    (`Prefix`, the stack of `LowerBound`) keeps yielding what it would have yielded. -/
+theorem C01_iterator_subtree_frozen (f : StampFacts) (hf : f.ok = true) (s s' : St)
+    (hs : Reachable f s) (hrun : Steps f s s') (v : View) (hv : v ∈ s.views)
+    (a : Nat) (ha : Reach s.heap v.root a) (n : Nat) :
+    content s'.heap n a = content s.heap n a :=
+  content_frame n (fun b hb =>
+    C01_published_cells_untouched f hf s s' hs hrun v hv b (Reach.trans ha hb))
+
+/-- Every pointer-chasing query gives the same answer: the payload and the child pointers seen
+    at the end of any path from the view's root. -/
+theorem C01_queries_repeatable (f : StampFacts) (hf : f.ok = true) (s s' : St)
+    (hs : Reachable f s) (hrun : Steps f s s') (v : View) (hv : v ∈ s.views) (p : List Nat) :
+    peek s'.heap v.root p = peek s.heap v.root p :=
+  peek_frame (C01_published_cells_untouched f hf s s' hs hrun v hv)
+    (hs.inv hf).nil0 (Steps.inv_frozen hf (hs.inv hf) hrun).1.nil0 p
+
+/-- a view, once handed out, can be used (and a transaction started from it) at any later time -/
+theorem C01_view_stays_published (f : StampFacts) (s s' : St) (hrun : Steps f s s') (v : View)
+    (hv : v ∈ s.views) : v ∈ s'.views := hrun.views_mono hv
+
+/-- Two transactions started from the same tree have the same id (`Tree.Txn` takes
+    `nextTxnID`), and still a write of one leaves everything the other reaches untouched:
+    the cells carrying their common id that one of them reaches were allocated by itself. -/
+theorem C01_sibling_transactions_isolated (f : StampFacts) (hf : f.ok = true) (s : St)
+    (hs : Reachable f s) (i j : Nat) (t u : Txn) (hij : j ≠ i) (ht : s.txns i = some t)
+    (hu : s.txns j = some u) (h' : Heap) (nxt' root' : Nat)
+    (hw : WriteOk f s.heap s.nxt t h' nxt' root') (n : Nat) :
+    content h' n u.root = content s.heap n u.root :=
+  content_frame n (hw.sibling_untouched hf (hs.inv hf) ht hij hu)
+
+/-- instantiated with the facts extracted from `part` … -/
+theorem C01_part_snapshot_frozen (s s' : St) (hs : Reachable Gen.partStamp s)
+    (hrun : Steps Gen.partStamp s s') (v : View) (hv : v ∈ s.views) (n : Nat) :
+    content s'.heap n v.root = content s.heap n v.root :=
+  C01_snapshot_frozen _ C01_part_stamp_discipline s s' hs hrun v hv n
+
+/-- … and from `lpm` -/
+theorem C01_lpm_snapshot_frozen (s s' : St) (hs : Reachable Gen.lpmStamp s)
+    (hrun : Steps Gen.lpmStamp s s') (v : View) (hv : v ∈ s.views) (n : Nat) :
+    content s'.heap n v.root = content s.heap n v.root :=
+  C01_snapshot_frozen _ C01_lpm_stamp_discipline s s' hs hrun v hv n
+
+/-- The executable path-copying write (`Cow.wr`: go down a path, clone-or-mutate each node by
+    the stamp test, re-link) is an instance of the write step, so the theorem holds for
+    every list of operations run by `Cow.run`. -/
+theorem C01_run_snapshot_frozen (f : StampFacts) (hf : f.ok = true) (ops1 ops2 : List Op) (v : View)
+    (hv : v ∈ (run f ops1 init).views) (n : Nat) :
+    content (run f (ops1 ++ ops2) init).heap n v.root = content (run f ops1 init).heap n v.root := by
+  rw [run_append]
+  exact C01_snapshot_frozen f hf _ _ (run_reachable hf ops1)
+    (run_steps hf ops2 ((run_reachable hf ops1).inv hf)) v hv n
+
+/-! ## the executable radix-tree model follows the same discipline
+
+`Model.Art` (run against part/ by the differential harness) carries the stamps along although,
+being built from values, it does not need them; these are the `StampFacts` read off the model. -/
+
+private theorem St_record_txnID (st : Art.St) (w : Nat) : (st.record w).txnID = st.txnID := by
+  unfold Art.St.record; split <;> rfl
+private theorem St_fresh_txnID (st : Art.St) : st.fresh.1.txnID = st.txnID := by
+  unfold Art.St.fresh; split <;> rfl
+
+/-- `Model.Art.cloneNode` (the executable mirror of `Txn.cloneNode`, run against the Go code by
+    the differential harness) follows the stamp test: an owned node is returned as it is … -/
+theorem C01_art_cloneNode_in_place_iff_owned (st : Art.St) (n : Art.Node) :
+    (n.txn = st.txnID → Art.cloneNode st n = (st, n)) ∧
+    (n.txn ≠ st.txnID → (Art.cloneNode st n).1.txnID = st.txnID ∧
+      (Art.cloneNode st n).2.txn = if n.isLeaf then 0 else st.txnID) := by
+  constructor
+  · intro h; simp [Art.cloneNode, h]
+  · intro h
+    cases n with
+    | leaf p d =>
+      have h' : ¬ (0 = st.txnID) := h
+      simp only [Art.cloneNode, Art.Node.txn, h', if_false, Art.Node.isLeaf, if_true]
+      exact ⟨by rw [St_fresh_txnID, St_record_txnID], trivial⟩
+    | inner k p lf kids w t =>
+      have h' : ¬ (t = st.txnID) := h
+      simp only [Art.cloneNode, Art.Node.txn, h', if_false, Art.Node.isLeaf]
+      exact ⟨by rw [St_fresh_txnID, St_record_txnID], by simp [St_fresh_txnID, St_record_txnID]⟩
+
+/-- `Tree.Txn()` of the model takes the id published with the tree -/
+theorem C01_art_txn_id_from_tree (t : Art.Tree) (wd : Art.World) :
+    (t.txn wd).st.txnID = t.nextTxnID ∧ (t.txn wd).root = t.root := ⟨rfl, rfl⟩
+
+/-- `Txn.Clone()` of the model bumps before handing out the root -/
+theorem C01_art_clone_bumps (x : Art.Txn) :
+    x.clone.1.st.txnID = x.st.txnID + 1 ∧ x.clone.2.nextTxnID = x.st.txnID + 1 ∧
+      x.clone.2.root = x.root ∧ x.clone.1.root = x.root := ⟨rfl, rfl, rfl, rfl⟩
+
+/-- `Txn.Commit()` of the model bumps before handing out the root -/
+theorem C01_art_commit_bumps (x : Art.Txn) (wd : Art.World) :
+    (x.commit wd).1.st.txnID = x.st.txnID + 1 ∧ (x.commit wd).2.1.nextTxnID = x.st.txnID + 1 ∧
+      (x.commit wd).2.1.root = x.root ∧ (x.commit wd).1.root = x.root := by
+  unfold Art.Txn.commit
+  simp only [Art.Txn.bump]
+  exact ⟨trivial, trivial, trivial, trivial⟩
+/-! ## necessity: each fact is needed -/
+
+/-- A publishing method that does not bump: the transaction keeps owning the nodes it
+    handed out and its next write changes them in place.  (Run: begin on the empty tree,
+    first insert, hand out the root with the method `k`, write the root again.) -/
+theorem C01_no_bump_breaks_snapshot_refuted (f : StampFacts) (k : Pub) (h : f.bumps k = false) :
+    Breaks f := by
+  obtain ⟨a, b, c, d, e, g, i, j⟩ := f
+  refine ⟨[.begin 0 0 0, .mkRoot 0, .publish 0 k], [.editRoot 0 102 []], ⟨2, 0⟩, 2, ?_, ?_⟩ <;>
+  cases k <;> simp only [StampFacts.bumps] at h <;> subst h
+  all_goals first
+    | decide +revert
+    | exact T.ne_of_flat (by decide +revert)
+
+/-- In-place writes not guarded by the stamp test: the write after a Commit goes straight
+    into the committed tree. -/
+theorem C01_unguarded_in_place_breaks_snapshot_refuted (f : StampFacts)
+    (h : f.inPlaceOnlyIfOwned = false) : Breaks f := by
+  obtain ⟨a, b, c, d, e, g, i, j⟩ := f
+  simp only at h; subst h
+  cases g
+  · exact ⟨[.begin 0 0 0, .mkRoot 0, .publish 0 .commit], [.editRoot 0 102 []], ⟨2, 0⟩, 2,
+      by decide +revert, T.ne_of_flat (by decide +revert)⟩
+  · exact ⟨[.begin 0 0 0, .mkRoot 0, .publish 0 .commit], [.editRoot 0 102 []], ⟨2, 1⟩, 2,
+      by decide +revert, T.ne_of_flat (by decide +revert)⟩
+
+/-- A transaction that does not take its id from the tree it starts from: started with a
+    stale id (5, the stamp of the committed root) it owns that root. -/
+theorem C01_stale_id_breaks_snapshot_refuted (f : StampFacts) (h : f.idFromPublished = false) :
+    Breaks f := by
+  obtain ⟨a, b, c, d, e, g, i, j⟩ := f
+  simp only at h; subst h
+  cases g
+  · exact ⟨[.begin 0 0 5, .mkRoot 5, .publish 0 .commit, .begin 1 1 5], [.editRoot 1 102 []], ⟨2, 5⟩, 2,
+      by decide +revert, T.ne_of_flat (by decide +revert)⟩
+  · exact ⟨[.begin 0 0 5, .mkRoot 5, .publish 0 .commit, .begin 1 1 5], [.editRoot 1 102 []], ⟨2, 6⟩, 2,
+      by decide +revert, T.ne_of_flat (by decide +revert)⟩
+
+/-- `ok` is exactly what is needed: a discipline with any fact missing has a breaking run … -/
+theorem C01_discipline_necessary (f : StampFacts) (h : f.ok = false) : Breaks f := by
+  by_cases hb : ∃ k, f.bumps k = false
+  · obtain ⟨k, hk⟩ := hb
+    exact C01_no_bump_breaks_snapshot_refuted f k hk
+  · have hk : ∀ k, f.bumps k = true := fun k => by
+      cases hkk : f.bumps k with
+      | true => rfl
+      | false => exact absurd ⟨k, hkk⟩ hb
+    cases hi : f.inPlaceOnlyIfOwned with
+    | false => exact C01_unguarded_in_place_breaks_snapshot_refuted f hi
+    | true =>
+      cases hd : f.idFromPublished with
+      | false => exact C01_stale_id_breaks_snapshot_refuted f hd
+      | true =>
+        have h1 := hk .all; have h2 := hk .clone; have h3 := hk .prefix
+        have h4 := hk .lowerBound; have h5 := hk .iterator; have h6 := hk .commit
+        simp only [StampFacts.bumps] at h1 h2 h3 h4 h5 h6
+        simp [StampFacts.ok, h1, h2, h3, h4, h5, h6, hi, hd] at h
+
+/-- … and a complete one has none -/
+theorem C01_discipline_sufficient (f : StampFacts) (h : f.ok = true) : ¬ Breaks f := by
+  rintro ⟨ops1, ops2, v, n, hv, hne⟩
+  apply hne
+  rw [← run_append]
+  exact C01_run_snapshot_frozen f h ops1 ops2 v hv n
+
+/-! ## `lpm.Txn.Commit` does not bump the committing transaction
+
+`part.Txn.Commit` increments `txn.txnID` before building the tree.  `lpm.Txn.Commit` does not:
+it stores `prevTxnID = txnID` and `Trie.Txn()`/`Txn.Reuse` add one.  tools/extract records this
+as `bumpCommit` for `lpm`, and that is right as long as the committing `lpm.Txn` is not written
+to again before `Clear`/`Reuse` — which holds in statedb (`lpmIndexTxn.commit` calls `Clear()`
+at once) but is not enforced by the `lpm` API. -/
+
+/-- `Commit(); Clear()` of `lpm` is the `publish .commit` step followed by `abandon`, so it is
+    covered by the theorems above -/
+theorem C01_lpm_commit_then_clear_is_publish (s : St) (i : Nat) :
+    (s.lpmCommit i).exec Gen.lpmStamp (.abandon i) =
+      (s.exec Gen.lpmStamp (.publish i .commit)).exec Gen.lpmStamp (.abandon i) :=
+  St.lpmCommit_clear _ rfl s i
+
+/-- … whereas an `lpm.Txn` that is written to after `Commit()` without `Clear`/`Reuse` changes the
+    committed trie in place, although every extracted fact holds -/
+theorem C01_lpm_write_after_commit_refuted :
+    ∃ v ∈ ((run Gen.lpmStamp [.begin 0 0 0, .mkRoot 0] init).lpmCommit 0).views,
+      content ((((run Gen.lpmStamp [.begin 0 0 0, .mkRoot 0] init).lpmCommit 0).exec Gen.lpmStamp
+          (.editRoot 0 102 [])).heap) 2 v.root ≠
+        content ((run Gen.lpmStamp [.begin 0 0 0, .mkRoot 0] init).lpmCommit 0).heap 2 v.root :=
+  ⟨⟨2, 1⟩, by decide, T.ne_of_flat (by decide)⟩
+
+/-! ## the hypotheses are satisfiable, on a run with branching and equal ids -/
+
+/-- Transaction 0 builds a two-node tree and commits it (view 1, id 1).  Transactions 1 and 2
+    both start from that tree — both with id 1 —, each copies the root and changes the copy;
+    1 commits, 2 writes in place into its own copy, clones, and both write again. -/
+def C01_demo1 : List Op :=
+  [ .begin 0 0 0, .mkRoot 0, .publish 0 .commit,
+    .begin 1 1 0, .begin 2 1 0,
+    .editRoot 1 101 [.at [0]],
+    .editRoot 2 201 [],
+    .publish 1 .commit ]
+
+def C01_demo2 : List Op :=
+  [ .editRoot 2 202 [],
+    .publish 2 .clone,
+    .editRoot 1 103 [],
+    .editRoot 2 203 [.nil],
+    .abandon 2,
+    .begin 3 1 0,
+    .editRoot 3 301 [.at [0], .at [0]],
+    .publish 3 .iterator ]
+
+/-- the two sibling transactions do have the same id, and own one node each -/
+example : ((run Gen.partStamp C01_demo1 init).txns 1).map (·.id) = some 2 ∧
+    ((run Gen.partStamp (C01_demo1.take 7) init).txns 1) = some ⟨1, 3⟩ ∧
+    ((run Gen.partStamp (C01_demo1.take 7) init).txns 2) = some ⟨1, 4⟩ := by decide
+
+/-- the state after `C01_demo1` is reachable, it has three views, and the last one denotes a
+    non-trivial value -/
+example : Reachable Gen.partStamp (run Gen.partStamp C01_demo1 init) ∧
+    (run Gen.partStamp C01_demo1 init).views = [⟨3, 2⟩, ⟨2, 1⟩, ⟨0, 0⟩] ∧
+    (content (run Gen.partStamp C01_demo1 init).heap 3 3).flat = (T.node 101 [.node 10 []]).flat :=
+  ⟨run_reachable C01_part_stamp_discipline _, by decide, by decide⟩
+
+/-- `C01_run_snapshot_frozen` applied to it: after the second half — in-place writes by the
+    sibling, a Clone, more writes, an abandoned transaction, a new one from the old tree — the
+    three views still denote what they did (here checked by evaluation as well) -/
+example : ∀ v ∈ (run Gen.partStamp C01_demo1 init).views, ∀ n,
+    content (run Gen.partStamp (C01_demo1 ++ C01_demo2) init).heap n v.root =
+      content (run Gen.partStamp C01_demo1 init).heap n v.root :=
+  fun v hv n => C01_run_snapshot_frozen _ C01_part_stamp_discipline C01_demo1 C01_demo2 v hv n
+
+example : (run Gen.partStamp (C01_demo1 ++ C01_demo2) init).views.map
+      (fun v => (content (run Gen.partStamp (C01_demo1 ++ C01_demo2) init).heap 3 v.root).flat) =
+    [T.node 301 [.node 10 [], .node 10 []], .node 202 [], .node 101 [.node 10 []],
+      .node 100 [.node 10 []], .nil].map T.flat := by decide
+
+/-- the hypotheses of `C01_sibling_transactions_isolated` are satisfiable: after the first five
+    operations transactions 1 and 2 have the same id and the same root, and transaction 1 can write -/
+example : ∃ s t u h' n' r', Reachable Gen.partStamp s ∧ s.txns 1 = some t ∧ s.txns 2 = some u ∧
+    t.id = u.id ∧ t.root = u.root ∧ t.root ≠ 0 ∧ WriteOk Gen.partStamp s.heap s.nxt t h' n' r' := by
+  have hr := run_reachable C01_part_stamp_discipline (C01_demo1.take 5)
+  have ht : (run Gen.partStamp (C01_demo1.take 5) init).txns 1 = some ⟨1, 2⟩ := by decide
+  obtain ⟨r', _, hw⟩ := St.write_ok Gen.partStamp _ (hr.inv C01_part_stamp_discipline).hi 1
+    ⟨[], [], .edit true 101 [.at [0]]⟩ _ ht
+  exact ⟨_, _, ⟨1, 2⟩, _, _, r', hr, ht, by decide, rfl, rfl, by decide, hw⟩
+
 end Sdb
